@@ -25,13 +25,14 @@ func runC15(c *Ctx) {
 	c15Epoch(c)
 	// The JIT's higher tiers are the optimiser: "behaves exactly like a fresh baseline compilation" needs the optimiser's
 	// fact discipline. The corresponding C03 rule sets are evaluated here under C15-R9 (same constructs).
-	c.ruleAlias = map[string]string{"C03-R1": "C15-R9", "C03-R2": "C15-R9", "C03-R3": "C15-R9", "C03-R4": "C15-R9", "C03-R7": "C15-R9", "C03-R8": "C15-R9", "C03-R9": "C15-R9", "C03-R10": "C15-R9", "C03-R11": "C15-R9", "C03-R12": "C15-R9"}
+	c.ruleAlias = map[string]string{"C03-R1": "C15-R9", "C03-R2": "C15-R9", "C03-R3": "C15-R9", "C03-R4": "C15-R9", "C03-R7": "C15-R9", "C03-R8": "C15-R9", "C03-R9": "C15-R9", "C03-R10": "C15-R9", "C03-R11": "C15-R9", "C03-R12": "C15-R9", "C03-R13": "C15-R9", "C03-R14": "C15-R9"}
 	c03Aliasing(c)
 	c03Kill(c)
 	c03Keys(c)
 	c03Rebuild(c)
 	c03Identities(c)
 	c03Core(c)
+	c03Flow(c)
 	c.ruleAlias = nil
 	c.rule("C15-R12", "PAIR (sibling indexes): where a struct of pkg/jit keeps the same cached objects in two containers (a per-route list and an index by name), every function that inserts into, deletes from or replaces one container does the same for the other: a specialisation trimmed from the list by eviction must not stay reachable - and valid - through an index that InvalidateCache never walks")
 	c.Sites["C15-R12#sibling-container-pairs"] = siblingIndexAudit(c, "C15-R12", []string{"pkg/jit"})
